@@ -715,6 +715,21 @@ def _is_count_arith(du, v, depth=0):
                         sites.append((g, t))
         if sites and all(len(t["args"]) >= v[1][0] and _is_count_arith(du_of(g), du_of(g).val_operand(t["args"][v[1][0] - 1]), depth + 1) for g, t in sites):
             return True
+    if v[0] == "place" and v[1][0] == 1 and du.fn.kind == "Closure" and depth < 3 and len(v[1][1]) >= 2:
+        # a counter of the enclosing function captured by reference: `let mut depth = 0; iter.any(|x| { .. depth += 1; .. })`
+        proj = [e for e in v[1][1] if e != "*"]
+        if len(proj) == 1 and isinstance(proj[0], tuple) and proj[0][0] == "f" and _captured_counter(du, v, proj[0][1]):
+            return True
+    if v[0] == "place" and not v[1][1] and v[1][0] == 2 and du.fn.kind == "Closure" and depth < 3:
+        # the accumulator of `fold(init, |acc, x| ..)` / `try_fold`: a count when init is one and the closure moves it by small constants
+        from . import facts as _facts
+        F = _facts.CURRENT
+        if F is not None and is_step_fn(F, du.fn.def_, 2):
+            for g in F.fns.values():
+                for bid, t in g.calls():
+                    if du.fn.def_ in t.get("fn_items", []) and (callee_name(t) or t.get("callee") or "").endswith(("::fold", "::try_fold")) and len(t["args"]) >= 2:
+                        if _is_count_arith(du_of(g), du_of(g).val_operand(t["args"][1]), depth + 1):
+                            return True
     if v[0] == "place" and not v[1][1]:
         # an accumulator: every definition is a constant or itself plus count arithmetic
         ds = du.defs.get(v[1][0], [])
@@ -740,12 +755,131 @@ def _is_count_arith(du, v, depth=0):
                     continue
                 elif es[0] == "binop" and es[1].startswith("Sub") and strip_casts(es[2]) == v:
                     continue
+                # the accumulator handed to a private step function and taken back: `depth = depth_after(depth, segment)?`
+                if _step_call_of_self(du, e, v):
+                    continue
                 ts = terms(e, [])
                 selfs = [t for t in ts if t == v]
                 rest = [t for t in ts if t != v]
                 if len(selfs) > 1 or not all(_is_count_arith(du, t, depth + 1) for t in rest):
                     return False
             return True
+    return False
+
+
+def _step_value(du, v, pidx, depth=0):
+    """v is the parameter pidx itself, the parameter +/- a small constant, or a small constant"""
+    v = strip_casts(v)
+    if depth > 6:
+        return False
+    k = const_int(v)
+    if k is not None:
+        return 0 <= k <= 1024
+    if v[0] == "place" and v[1] == (pidx, ()):
+        return True
+    if v[0] == "binop" and v[1].replace("WithOverflow", "").replace("Unchecked", "") in ("Add", "Sub"):
+        a, b = strip_casts(v[2]), strip_casts(v[3])
+        kb = const_int(b)
+        return _step_value(du, a, pidx, depth + 1) and kb is not None and 0 <= kb <= 1024
+    if v[0] == "call" and v[1] and v[1].endswith(("::checked_sub", "::checked_add", "::saturating_sub", "::saturating_add")) and len(v[2]) == 2:
+        kb = const_int(strip_casts(v[2][1]))
+        return _step_value(du, v[2][0], pidx, depth + 1) and kb is not None and 0 <= kb <= 1024
+    if v[0] == "place" and not v[1][1]:
+        ds = du.defs.get(v[1][0], [])
+        if 1 <= len(ds) <= 6 and v[1][0] > du.fn.nargs:
+            return all(_step_def(du, d, pidx, depth + 1) for d in ds)
+    return False
+
+
+def _step_def(du, d, pidx, depth=0):
+    """one definition of a result: Some/Ok(step value), None/Err(..), a step value, or an Option produced by checked_* of one"""
+    if d[0] == "call":
+        return _step_value(du, du.val_call(d[3], 0, d[1]), pidx, depth)
+    if d[0] != "assign":
+        return False
+    rv = d[3]
+    if rv["k"] == "aggregate" and rv.get("variant") is not None:
+        if rv["variant"] in ("None", "Err", "Break"):
+            return True
+        return len(rv["ops"]) == 1 and _step_value(du, du.val_operand(rv["ops"][0]), pidx, depth)
+    if rv["k"] == "use":
+        return _step_value(du, du.val_operand(rv["ops"][0]), pidx, depth)
+    if rv["k"] == "binop":
+        return _step_value(du, ("binop", rv["op"]) + tuple(du.val_operand(o) for o in rv["ops"]), pidx, depth)
+    return False
+
+
+def is_step_fn(F, name, pidx):
+    """a private function / closure of the crate whose result is its parameter pidx moved by at most a small constant (possibly
+    wrapped in Some / Ok, possibly None / Err): `fn depth_after(depth, segment) -> Result<usize, _>`, the body of a `try_fold`"""
+    f = F.fns.get(name) if F is not None else None
+    if f is None or f.crate != "rws" or f.kind == "Promoted":
+        return False
+    if f.kind != "Closure" and not (f.vis or "").startswith("Restricted"):
+        return False
+    du = du_of(f)
+    if any(pk[0] == pidx for _, _, pk, _ in du.writes):
+        return False
+    ds = du.defs.get(0, [])
+    return bool(ds) and all(_step_def(du, d, pidx) for d in ds)
+
+
+def _step_call_of_self(du, e, v, depth=0):
+    """e is `f(.., v, ..)` for a step function f on that argument, possibly behind unwrap / expect / `?` / a Some / Ok payload"""
+    from . import facts as _facts
+    F = _facts.CURRENT
+    e = strip_casts(e)
+    if depth > 6:
+        return False
+    if e[0] == "place" and len(e[1][1]) >= 1 and isinstance(e[1][1][0], tuple) and e[1][1][0][0] == "d":
+        return _step_call_of_self(du, du.val_place((e[1][0], ())), v, depth + 1)
+    if e[0] == "call" and e[1] and e[2]:
+        if e[1].endswith(("::unwrap", "::expect", "as std::ops::Try>::branch", "::unwrap_or", "::unwrap_or_default")):
+            return _step_call_of_self(du, e[2][0], v, depth + 1)
+        for i, a in enumerate(e[2]):
+            if strip_casts(a) == v and is_step_fn(F, e[1], i + 1):
+                return True
+    return False
+
+
+def _captured_counter(du, v, k):
+    """the k-th capture of this closure is `&mut counter` of the parent, the parent defines the counter by small constants only, and this
+    closure only ever moves it by small constants"""
+    from . import facts as _facts
+    F = _facts.CURRENT
+    if F is None:
+        return False
+    me = du.fn.def_
+    # every write of the closure to that capture is capture +/- small constant
+    for bid, idx, pk, kind in du.writes:
+        if pk[0] != 1 or [e for e in pk[1] if e != "*"] != [e for e in v[1][1] if e != "*"]:
+            continue
+        if kind != "assign" or idx == "term":
+            return False
+        st = du.blocks[bid]["stmts"][idx]
+        e = strip_casts(du.val_rvalue(st["rv"], 0, bid))
+        if not (e[0] == "binop" and e[1].replace("WithOverflow", "").replace("Unchecked", "") in ("Add", "Sub") and strip_casts(e[2]) == v
+                and const_int(strip_casts(e[3])) is not None and 0 <= const_int(strip_casts(e[3])) <= 1024):
+            return False
+    for g in F.fns.values():
+        if g.crate != "rws" or not me.startswith(g.def_ + "::{closure"):
+            continue
+        gdu = du_of(g)
+        for b in g.blocks:
+            for st in b["stmts"]:
+                if st["k"] == "assign" and st["rv"]["k"] == "aggregate" and st["rv"].get("agg") == "closure" and st["rv"].get("closure") == me and k < len(st["rv"]["ops"]):
+                    cap = gdu.val_operand(st["rv"]["ops"][k])
+                    if cap[0] != "ref" or cap[1][1]:
+                        return False
+                    L = cap[1][0]
+                    ds = gdu.defs.get(L, [])
+                    if not ds or not all(d[0] == "assign" and d[3]["k"] == "use" and d[3]["ops"][0].get("k") == "const" and isinstance(d[3]["ops"][0].get("v"), int) and 0 <= d[3]["ops"][0]["v"] <= 1024 for d in ds):
+                        return False
+                    # the parent hands the counter to closures only (no other mutable borrow, no field write)
+                    for bid2, idx2, pk2, kind2 in gdu.writes:
+                        if pk2[0] == L and kind2 not in ("assign", "mutref"):
+                            return False
+                    return True
     return False
 
 
